@@ -86,7 +86,10 @@ def distinct(draw, n, pool, avoid=()):
     return out
 
 
-OPTS = ["none", "notnull", "default", "defstr", "pk", "unique", "ref", "size"]
+OPTS = ["none", "notnull", "default", "defstr", "pk", "unique", "ref", "size", "charset"]
+# referential actions / column attributes whose last word is itself a keyword of other statements (SET, NULL): the name that follows
+# them - next column, key list - is still a name
+REF_ACTIONS = [None, None, None, ["ON", "DELETE", "SET", "NULL"], ["ON", "UPDATE", "SET", "NULL"], ["ON", "DELETE", "CASCADE"]]  # SET DEFAULT loses the table: known finding K9 (two-word actions)
 
 
 @st.composite
@@ -115,7 +118,8 @@ def model_case(draw):
     refs = {}
     for i, o in enumerate(copts):
         if o == "ref":
-            refs[str(i)] = {"rtable": draw(name("plainish")), "rschema": draw(st.one_of(st.none(), name("plainish"))), "rcol": draw(name("col"))}
+            refs[str(i)] = {"rtable": draw(name("plainish")), "rschema": draw(st.one_of(st.none(), name("plainish"))), "rcol": draw(name("col")),
+                            "action": draw(st.sampled_from(REF_ACTIONS))}
     index = None
     if draw(st.integers(0, 2)) == 0:
         k = draw(st.integers(1, min(3, n)))
@@ -330,6 +334,10 @@ class C06(Prop):
             elif o == "ref":
                 ref = c["refs"][str(i)]
                 toks += K("REFERENCES") + [I((ref["rschema"] + "." if ref["rschema"] else "") + ref["rtable"])] + plist([[I(ref["rcol"])]])
+                if ref.get("action"):
+                    toks += K(*ref["action"][:2]) + [V(w) for w in ref["action"][2:]]
+            elif o == "charset":
+                toks = [I(nm), T("varchar")] + plist([[N(10)]]) + K("CHARACTER", "SET") + [V("utf8")]
             items.append({"raw": toks})
         con = lambda n: (K("CONSTRAINT") + [I(n)]) if n else []
         if c["tpk"]:
